@@ -57,7 +57,7 @@ fn stored_one_call<const N: usize, const OUT: usize, const KMAX: usize>() {
     state.last_flush = -2;
     // state left behind by an earlier Z_NO_FLUSH call: k bytes buffered in the window, not yet emitted
     let buffered: [u8; 4] = kani::any();
-    let k: usize = kani::any();
+    let k: usize = if KMAX == 0 { 0 } else { kani::any() };
     kani::assume(k <= KMAX && KMAX <= 4);
     let mut i = 0;
     while i < 4 {
@@ -107,7 +107,7 @@ fn stored_one_call<const N: usize, const OUT: usize, const KMAX: usize>() {
     let in_window = stream.state.strstart as isize - stream.state.block_start;
     assert!(in_window >= 0);
     // everything consumed is either in the output, pending, or still buffered in the window
-    let mut back = [0u8; N + 4];
+    let mut back = [0u8; 12]; // >= N + 4 for every instantiation
     let total = k + n as usize; // everything supplied so far
     let expect_at = |j: usize| -> u8 { if j < k { buffered[j] } else { input[j - k] } };
     match bs {
